@@ -41,14 +41,15 @@ def reset():
     sh("git checkout -q -- . && git clean -fdq -e target -e target-demo")
 
 def round2_demos():
-    """Round 2: demo command taken from the DEMO_CMD line of the agent's NOTES.md."""
+    """Rounds 2 and 3: demo command taken from the DEMO_CMD line of the agent's NOTES.md."""
     d = {}
-    for pid in ["C01","C02","C03","C04","C06","C08","C09","C12","C14","C15","C16","C20"]:
-        for var in "AB":
-            notes = f"/tmp/wt2-{pid}/seeded/{var}/NOTES.md"
-            if not os.path.exists(notes): continue
-            m = re.search(r"DEMO_CMD:\s*`?([^`\n]+)`?", open(notes).read())
-            if m: d[f"r2-{pid}-{var}"] = m.group(1).strip().replace("CARGO_TARGET_DIR=$PWD/target ", "")
+    for rnd in (2, 3):
+        for pid in ["C01","C02","C03","C04","C06","C08","C09","C12","C14","C15","C16","C20"]:
+            for var in "AB":
+                notes = f"/tmp/wt{rnd}-{pid}/seeded/{var}/NOTES.md"
+                if not os.path.exists(notes): continue
+                m = re.search(r"DEMO_CMD:\s*`?([^`\n]+)`?", open(notes).read())
+                if m: d[f"r{rnd}-{pid}-{var}"] = re.sub(r"CARGO_TARGET_DIR=\S+ ", "", m.group(1).strip())
     return d
 
 def main():
@@ -56,10 +57,10 @@ def main():
     all_demos = dict(DEMOS)
     all_demos.update(round2_demos())
     for key, demo_cmd in all_demos.items():
-        if only and key not in only and not (only == ["round2"] and key.startswith("r2-")): continue
-        if key.startswith("r2-"):
-            _, pid, var = key.split("-")
-            src = f"/tmp/wt2-{pid}/seeded/{var}"
+        if only and key not in only and not (only == ["round2"] and key.startswith("r2-")) and not (only == ["round3"] and key.startswith("r3-")): continue
+        if key.startswith("r2-") or key.startswith("r3-"):
+            rnd, pid, var = key.split("-")
+            src = f"/tmp/wt{rnd[1]}-{pid}/seeded/{var}"
         else:
             pid, var = key.split("-")
             src = f"/tmp/wt-{pid}/seeded/{var}"
@@ -67,7 +68,7 @@ def main():
             continue
         out_dir = f"/verif/seeded/{key}"
         meta_path = f"{out_dir}/meta.json"
-        if os.path.exists(meta_path) and (not only or only == ["round2"]):
+        if os.path.exists(meta_path) and (not only or only in (["round2"], ["round3"])):
             print(key, "already confirmed"); continue
         t0 = time.time()
         reset()
